@@ -149,8 +149,9 @@ class CategoricalDiscretizer(BaseDiscretizer):
 
             # grouping values to str_default if any
             if len(values_to_group) > 0:
-                # adding default value to the order
-                order.append(self.str_default)
+                # adding default value to the order (a pre-grouped order may already hold it)
+                if not order.contains(self.str_default):
+                    order.append(self.str_default)
 
                 # grouping rare values in default value
                 order.group_list(values_to_group, self.str_default)
